@@ -56,6 +56,11 @@ theorem C14_bind_keyword_order (sig : Signature) (hv : hasVarKw sig = false) (po
       exact (accepts_parts ha).2.1
     exact ⟨ha, by rw [he, envOf_kw_perm sig hv pos h hn]⟩
 
+example : bind [⟨"iterable", .posOnly, none⟩, ⟨"key", .kwOnly, some "None"⟩, ⟨"reverse", .kwOnly, some "False"⟩]
+      (⟨[.arg 1], [("reverse", .arg 2), ("key", .arg 3)]⟩ : CallShape Nat)
+    = bind [⟨"iterable", .posOnly, none⟩, ⟨"key", .kwOnly, some "None"⟩, ⟨"reverse", .kwOnly, some "False"⟩]
+      ⟨[.arg 1], [("key", .arg 3), ("reverse", .arg 2)]⟩ := rfl
+
 example : bind [⟨"a", .posOnly, none⟩, ⟨"b", .posOrKw, some "1"⟩, ⟨"r", .varPos, none⟩, ⟨"k", .kwOnly, none⟩]
     (⟨[.arg 1, .arg 2, .arg 3], [("k", .arg 4)]⟩ : CallShape Nat)
     = .ok [("a", .val (.arg 1)), ("b", .val (.arg 2)), ("r", .star [.arg 3]), ("k", .val (.arg 4))] := rfl
@@ -182,6 +187,15 @@ theorem C14_same_outcome_partial {Out : Type} (truthy : α → Bool) (sem : Stri
   simp only [runOverload, runBuiltin, h1, h2, h3, bind_of_accepts hacc]
   exact (hsem b _ _ h4).symm
 
+/-- The hypotheses are satisfiable non-trivially: a `sem` that reports which builtin ran. -/
+example : runOverload (fun _ : Nat => true) (fun b _ => b) "TypeError" (fun _ => "library error") "sorted"
+      [⟨"iterable", .posOnly, none⟩, ⟨"key", .kwOnly, some "None"⟩, ⟨"reverse", .kwOnly, some "False"⟩]
+      ⟨[.arg 1], [("reverse", .arg 2)]⟩ = "sorted" := rfl
+/-- Why `userShape` is assumed: if user code could pass the sentinel, `range(1, UNSPECIFIED)` would
+silently become `range(1)`. -/
+example : forward (fun _ : Nat => true) "range" ⟨[.arg 1, .const "UNSPECIFIED"], []⟩
+    = .ok ⟨"range", ⟨[.arg 1], []⟩, true⟩ := rfl
+
 omit [DecidableEq α] in
 /-- A builtin that is not substituted is called as is. -/
 theorem C14_unsubstituted_identity (truthy : α → Bool) (b : String) (hb : b ∉ supportedBuiltins)
@@ -255,11 +269,20 @@ Full statement (FALSE of the pinned code, see `C14_frames_counterexample`):
                            = some (index of user)
 -/
 
-/-- The `innermost=` each wrapper passes (from the generated table). -/
+/-- What the generated tables say about the four context-sensitive builtins: each is routed by
+`converted_call` to its own wrapper with the caller's scope object; the `innermost=` each wrapper
+passes; `locals()` hands back the found frame's `f_locals`, `globals()` its `f_globals`; `super()`
+reads `__class__` and the first variable name. -/
 theorem C14_frame_search_modes :
     innermostOf "eval" = some true ∧ innermostOf "locals" = some true ∧
     innermostOf "globals" = some true ∧ innermostOf "super" = some false ∧
-    findOriginatingFrameIsModelledLoop = true := by decide
+    findOriginatingFrameIsModelledLoop = true ∧
+    frameAttrOf "locals" = some "f_locals" ∧ frameAttrOf "globals" = some "f_globals" ∧
+    superTypeKey = "__class__" ∧ superSelfIndex = 0 ∧
+    wrapperOf "eval" = some ("eval_in_original_context", ["f", "args", "caller_fn_scope"]) ∧
+    wrapperOf "super" = some ("super_in_original_context", ["f", "args", "caller_fn_scope"]) ∧
+    wrapperOf "globals" = some ("globals_in_original_context", ["caller_fn_scope"]) ∧
+    wrapperOf "locals" = some ("locals_in_original_context", ["caller_fn_scope"]) := by decide
 
 /-- `eval`/`locals`/`globals` resolve to the innermost frame holding the scope object: the frame of
 the generated function that contains the call. -/
@@ -285,6 +308,11 @@ theorem C14_frames_partial (name : String) (id : Nat) (b : String) (inn : Bool)
   rcases hb with h | h
   · exact .inl h
   · exact .inr (.inl h)
+
+example : findOriginatingFrame "fscope" 1 true
+    [⟨"_find_originating_frame", [("caller_fn_scope", 1)], 9, []⟩, ⟨"eval_in_original_context", [("caller_fn_scope", 1)], 9, []⟩,
+     ⟨"converted_call", [("caller_fn_scope", 1)], 8, []⟩, ⟨"ag__ev", [("c", 2), ("fscope", 1), ("zz", 4)], 7, ["c"]⟩,
+     ⟨"caller", [("fscope", 6)], 7, []⟩] = some 3 := by decide
 
 /-- Finer hypothesis (what the class predicate `bodyHidesName` negates): at ANY nesting, if the frame
 found shows every user variable the call needs exactly as the user function's frame does — the
@@ -344,8 +372,11 @@ theorem C14_super_frame (name : String) (id : Nat) (inn : Bool) (hi : innermostO
       ((pre ++ user :: outer)[i]?).bind superArgs = superSpec user := by
   have : inn = false := by simpa [innermostOf, frameSearchInnermost, List.lookup] using hi.symm
   subst this
-  refine ⟨pre.length, ?_, by simp, by simp [superArgs, superSpec]⟩
-  simpa [findOriginatingFrame] using findLoop_outermost name id user outer hu hout pre 0 none
+  refine ⟨pre.length, ?_, by simp, ?_⟩
+  · simpa [findOriginatingFrame] using findLoop_outermost name id user outer hu hout pre 0 none
+  · simp only [List.getElem?_append_right (Nat.le_refl _), Nat.sub_self, List.getElem?_cons_zero, Option.bind_some,
+      superArgs, superSpec, superTypeKey, superSelfIndex]
+    cases user.varnames <;> cases List.lookup "__class__" user.locals <;> simp
 
 example : findOriginatingFrame "fscope" 1 false
     [⟨"lib", [], 9, []⟩, ⟨"loop_body", [("fscope", 1)], 7, ["itr"]⟩, ⟨"if_body", [("fscope", 1)], 7, []⟩,
@@ -365,6 +396,9 @@ theorem C14_globals (name : String) (id : Nat) (inn : Bool) (stack : List Frame)
     rw [hf]
     simp [hg f (List.mem_of_getElem? hf) hh]
 
+example : ((([⟨"lib", [], 9, []⟩, ⟨"loop_body", [("fscope", 1)], 7, ["itr"]⟩, ⟨"ag__f", [("fscope", 1)], 7, []⟩] : List Frame)[1]?).map
+    (·.globals)) = some 7 := by decide
+
 /-! ## The namespaces `eval` ends up with
 
 Full statement (FALSE of the pinned code): `evalForward lib user extra = evalSpec user extra` for
@@ -378,6 +412,10 @@ theorem C14_eval_args_partial (lib user : Nat) (extra : List EArg) (h : evalArgs
   | [], _ => rfl
   | [.ns g, .none], _ => rfl
   | [.ns g, .ns l], _ => rfl
+
+example : evalForward 0 1 [] = some (.frameGlobals 1, .frameLocals 1) := rfl
+example : evalForward 0 1 [.ns (.obj 5), .ns (.obj 6)] = some (.obj 5, .obj 6) := rfl
+example : evalArgsFaithful [.ns (.obj 5), .none] = true := rfl
 
 /-- The excluded argument lists are exactly the two finding classes. -/
 theorem C14_eval_classes (extra : List EArg) (hl : extra.length ≤ 2) :
@@ -402,5 +440,56 @@ theorem C14_eval_none_globals_deviates (lib user : Nat) :
     (∀ l, evalSpec user [.none, .ns l] = some (.frameGlobals user, l) ∧
           evalForward lib user [.none, .ns l] = some (.frameGlobals lib, l)) :=
   ⟨rfl, rfl, fun _ => ⟨rfl, rfl⟩⟩
+
+/-! ## Content of the user frame seen by a dynamic read
+
+Full statement (FALSE of the pinned code, see `C14_dynamic_read_counterexample`):
+`convFrame ws st n = origFrame ws st n` for every name — an `eval('x')`/`locals()['x']` placed after a
+functionalised block sees the writes the block made to `x`. The converter makes a body's assignment
+`nonlocal` only for names its static liveness analysis finds read later; a read through
+`eval`/`locals` is invisible to it. -/
+
+private theorem applyWrites_agree (n : String) (k1 k2 : Write → Bool) :
+    ∀ (ws : List Write) (s1 s2 : String → Option Nat), s1 n = s2 n →
+      (∀ w ∈ ws, w.name = n → k1 w = k2 w) → applyWrites k1 ws s1 n = applyWrites k2 ws s2 n := by
+  intro ws
+  induction ws with
+  | nil => intro s1 s2 h _; exact h
+  | cons w r ih =>
+    intro s1 s2 h hk
+    simp only [applyWrites]
+    apply ih
+    · by_cases hn : w.name = n
+      · have := hk w (List.mem_cons_self ..) hn
+        rw [this]
+        cases k2 w <;> simp [h, hn]
+      · have hn' : ¬ n = w.name := fun e => hn e.symm
+        cases k1 w <;> cases k2 w <;> simp [h, hn']
+    · intro w' hw' hn
+      exact hk w' (List.mem_cons_of_mem _ hw') hn
+
+/-- If no name the call reads dynamically is assigned in a generated body without a `nonlocal`
+declaration, the converted function's frame shows, for those names, exactly what the original
+function's frame shows — for every sequence of writes and every initial frame. -/
+theorem C14_dynamic_read_partial (needed : List String) (ws : List Write) (st : String → Option Nat)
+    (h : staleDynamicRead needed ws = false) : ∀ n ∈ needed, convFrame ws st n = origFrame ws st n := by
+  intro n hn
+  apply applyWrites_agree n _ _ ws st st rfl
+  intro w hw hname
+  simp only [staleDynamicRead, List.any_eq_false, List.any_eq_true, Bool.and_eq_true, beq_iff_eq, Bool.not_eq_true',
+    not_exists, not_and] at h
+  have := h n hn w hw
+  cases hb : w.inBody <;> cases hd : w.nonlocalDecl <;> simp
+  exact absurd hd (by simpa [hname, hb] using this)
+
+example : staleDynamicRead ["x"] [⟨"x", 5, true, true⟩, ⟨"y", 1, true, false⟩, ⟨"x", 7, false, false⟩] = false := by decide
+
+/-- Counterexample to the full statement: `x = -1; if c: x = 5; return eval('x')` — the body's `x = 5`
+is a local of `if_body`, the user frame still has the old `x`. -/
+theorem C14_dynamic_read_counterexample :
+    let ws : List Write := [⟨"x", 0, false, false⟩, ⟨"x", 5, true, false⟩]
+    staleDynamicRead ["x"] ws = true ∧ origFrame ws (fun _ => none) "x" = some 5 ∧
+    convFrame ws (fun _ => none) "x" = some 0 := by
+  decide
 
 end Malt.Builtins
